@@ -550,6 +550,13 @@ Definition store_owned (s : store) : Prop :=
   (forall n, nmem n (s_natt s) = true -> nmem n (s_nodes s) = true) /\
   (forall e, nmem e (s_eatt s) = true -> nmem e (s_edges s) = true).
 
+(* the part of well-formedness every op preserves on its own: canonical maps, stores/instances in step *)
+Definition Struct (st : state) : Prop :=
+  nsorted (st_stores st) /\ nsorted (st_insts st) /\
+  (forall w, nmem w (st_stores st) = nmem w (st_insts st)) /\
+  (forall w s, get_store st w = Some s -> store_sorted s).
+Definition Owned (st : state) : Prop := forall w s, get_store st w = Some s -> store_owned s.
+
 (* structural well-formedness: canonical maps, stores/instances in step, owned attachments *)
 Definition WFs (st : state) : Prop :=
   nsorted (st_stores st) /\ nsorted (st_insts st) /\
